@@ -72,6 +72,9 @@ func c08Gen(r *rand.Rand, tier string) any {
 		if r.IntN(8) == 0 {
 			t.Refs = append(t.Refs, refSpec{Kind: "dag", Name: []string{"", "tuple"}[r.IntN(2)], Val: valueSpec{Kind: "int", V: r.IntN(40)}})
 		}
+		if r.IntN(10) == 0 {
+			t.Refs = append(t.Refs, refSpec{Kind: "manynested", Val: genValue(r, literalKinds)})
+		}
 		if r.IntN(6) == 0 && t.Form == "decorator" {
 			// a mutable default value that the body itself changes: the values the function
 			// references differ after every execution while the project stays loaded
@@ -87,6 +90,7 @@ func c08Gen(r *rand.Rand, tier string) any {
 	}
 	p.Targets = append(p.Targets, all)
 	sc := &histScenario{Spec: p, Proc: genProc(r)}
+	sc.Proc.GCHammer = r.IntN(4) == 0
 	// items to edit, one at a time
 	items := p.semanticItems()
 	r.Shuffle(len(items), func(i, j int) { items[i], items[j] = items[j], items[i] })
@@ -120,6 +124,14 @@ func fingerprintError(err error) bool {
 }
 
 func c08Exec(scAny any, c *simcheck.Ctx) *simcheck.Violation {
+	v := c08ExecInner(scAny, c)
+	if sc := scAny.(*histScenario); v != nil && sc.Proc.GCHammer && v.Class != simcheck.EngineError {
+		v.NoMinimise = true
+	}
+	return v
+}
+
+func c08ExecInner(scAny any, c *simcheck.Ctx) *simcheck.Violation {
 	sc := scAny.(*histScenario)
 	if sc.Spec == nil || sc.Spec.target("//:all") == nil {
 		return nil
@@ -129,6 +141,10 @@ func c08Exec(scAny any, c *simcheck.Ctx) *simcheck.Violation {
 		return simcheck.V(simcheck.EngineError, "setup: %v", err)
 	}
 	defer h.cleanup()
+	if sc.Proc.GCHammer {
+		defer startGCHammer()()
+		c.St.Count("cases_under_constant_garbage_collection", 1)
+	}
 	step := 0
 	run := func(what string) (*procResult, *simcheck.Violation) {
 		step++
